@@ -6,6 +6,7 @@ CONSTANTS
   Modes = {"None", "Sign", "SignAndEncrypt"}
   Moves = {}
   Damages = {}
+  Injects = {}
   Budget = 0
   MaxChunks = 3
   Sweeps <- NoSweep
